@@ -91,6 +91,10 @@ func (o ChainOracle) AfterStep(m *VM, rec *Rec) {
 		azErr = rec.Class
 	}
 	accepted := azErr == ""
+	errText := rec.Err
+	if rec.V != nil {
+		errText = rec.V.AzErrText
+	}
 	if strings.Contains(azErr, "+authorizer") {
 		m.Violate(o.Prop, "authorizer-returned-for-rejected-token", "an Authorizer value was returned together with a verification error", fmt.Sprintf("op %d: %s", rec.I, azErr))
 	}
@@ -155,10 +159,17 @@ func (o ChainOracle) AfterStep(m *VM, rec *Rec) {
 		return
 	}
 	m.Probe("chain_rejected")
+	// third sentence of C01: whatever was produced by building, attenuating, sealing (and
+	// serializing / reloading) through the library is accepted under its issuer's key
+	if !t.Hostile && t.Abs != nil && !op.KS.UseMap && op.KS.Raw == "" && op.KS.Key == t.RootKey {
+		m.Violate(o.Prop, "library-built-token-rejected", "a token produced only through the library is rejected under its issuer's key: "+azErr,
+			fmt.Sprintf("op %d: token in slot %d (created by op %d, %d blocks) rejected: %s", rec.I, op.A, t.Created, len(t.Abs.Blocks), errText))
+		return
+	}
 	// completeness
 	if refValid && refValid2 && wellFormed(data) {
 		m.Violate(o.Prop, "valid-token-rejected", "well-formed token with an unbroken chain rejected: "+azErr,
-			fmt.Sprintf("op %d: reference accepts the chain under key %x but the library rejected it (%s)\nmutations: %v", rec.I, key, rec.V.AzErrText, m.mutsOf(t)))
+			fmt.Sprintf("op %d: reference accepts the chain under key %x but the library rejected it (%s)\nmutations: %v", rec.I, key, errText, m.mutsOf(t)))
 	}
 }
 
@@ -420,7 +431,7 @@ func (RootIDOracle) AtEnd(m *VM) {}
 
 type RevocationOracle struct{}
 
-func (RevocationOracle) AfterStep(m *VM, rec *Rec) {
+func (o RevocationOracle) AfterStep(m *VM, rec *Rec) {
 	if rec.Panic != "" {
 		return
 	}
@@ -429,6 +440,22 @@ func (RevocationOracle) AfterStep(m *VM, rec *Rec) {
 	if t == nil || t.Created != rec.I || t.Hostile {
 		return
 	}
+	o.checkToken(m, rec, t)
+}
+
+// AtEnd re-examines every live token: identifiers are stable, so everything
+// that held when a token was created must still hold after all later operations.
+func (o RevocationOracle) AtEnd(m *VM) {
+	for _, slot := range m.Toks() {
+		t := m.Tok(slot)
+		if t.Hostile || t.Created >= len(m.Recs) {
+			continue
+		}
+		o.checkToken(m, m.Recs[t.Created], t)
+	}
+}
+
+func (RevocationOracle) checkToken(m *VM, rec *Rec, t *TokObj) {
 	ids := t.B.RevocationIds()
 	m.Probe("revocation_token_checked")
 	if len(ids) != 1+t.B.BlockCount() {
@@ -485,7 +512,6 @@ func (RevocationOracle) AfterStep(m *VM, rec *Rec) {
 		reg[k] = ev
 	}
 }
-func (RevocationOracle) AtEnd(m *VM) {}
 
 // ---- C09 sealing
 
